@@ -129,6 +129,29 @@ func directed() []namedScen {
 	}
 	simple("call_resthook-no-result-name", act("rh", "call_resthook", M{"resthook": "all-gone"}), nil, nil)
 	{
+		// two result keys, each first produced by a webhook / resthook and then by something that gives it a category of its
+		// own: every key's listed categories are the union of its own producers', whatever the other key got
+		as := single("messaging", []any{
+			act("w1", "call_webhook", M{"method": "GET", "url": "http://localhost/?cmd=unavailable", "result_name": "Lookup"}),
+			act("r1", "call_resthook", M{"resthook": "all-gone", "result_name": "Payment"}),
+			act("s1", "set_run_result", M{"name": "Lookup", "value": "x", "category": "Cached"}),
+			act("s2", "set_run_result", M{"name": "Payment", "value": "y", "category": "Deferred"}),
+			act("w3", "call_webhook", M{"method": "GET", "url": "http://localhost/?cmd=success", "result_name": "Third"}),
+			act("s3", "set_run_result", M{"name": "Third", "value": "z", "category": "Other One"}),
+		})
+		add("results-two-webhook-keys-with-extra-categories", &gen.Scenario{Assets: as, Trigger: d.Manual("A", nil), Resumes: msgThenTimeout})
+	}
+	{
+		// attachments / quick replies / template variables that exist only in a translation (the base language has none) and
+		// name globals and fields that occur nowhere else
+		a := act("m", "send_msg", M{"text": "hi"})
+		as := single("messaging", []any{a})
+		as["flows"].([]any)[0].(M)["localization"] = M{"spa": M{a["uuid"].(string): M{"attachments": []string{"image/jpeg:http://x.io/@globals.only_in_translation_a.jpg"}, "quick_replies": []string{"@fields.only_in_translation_q", "@globals.only_in_translation_q"}}}}
+		as["globals"] = append(listOfM(as["globals"]), M{"key": "only_in_translation_a", "name": "A", "value": "a"}, M{"key": "only_in_translation_q", "name": "Q", "value": "q"})
+		as["fields"] = append(listOfM(as["fields"]), M{"uuid": gen.NamedUUID("field:oitq"), "key": "only_in_translation_q", "name": "OITQ", "type": "text"})
+		add("send_msg-translation-only-attachments-and-quick-replies", &gen.Scenario{Assets: as, Trigger: d.Manual("A", contact(M{"language": "spa"})), Resumes: msgThenTimeout})
+	}
+	{
 		// two hooks saving the same result one after the other: the first one's category is seen in the event only
 		as := single("messaging", []any{act("rh1", "call_resthook", M{"resthook": "all-gone", "result_name": "Hook Result"}), act("rh2", "call_resthook", M{"resthook": "new-registration", "result_name": "Hook Result"})})
 		add("call_resthook-gone-then-overwritten", &gen.Scenario{Assets: as, Trigger: d.Manual("A", nil), Resumes: timeoutOnly})
